@@ -41,3 +41,12 @@ def direction(v) -> list[int]:
 def integer(v) -> int:
     """A field documented as int is an int (not its text, not a float that happens to be whole)."""
     return v if isinstance(v, int) and not isinstance(v, bool) else -999
+
+
+def tenths(v) -> int:
+    """A value documented in tenths (temperature, amps to one decimal) as an integer number of tenths - provided it IS the float
+    nearest to that many tenths (25.7, not 25.700000000000003: callers compare and print these values)."""
+    if isinstance(v, bool) or not isinstance(v, (int, float)):
+        return -999
+    n = int(round(v * 10))
+    return n if v == n / 10 else -999
